@@ -157,32 +157,39 @@ def run(ctx):
                 "specs; TLC behaviours containing a fault are replayed into the real code; every (entry point, faulty item, worker count, schedule policy) "
                 "combination listed is run on the real code under the deterministic scheduler, and once per entry point with real processes. distinct = "
                 "distinct (entry point, fault item, workers, full schedule)")
-    # (1) TLC
+    # (1) TLC (independent runs, side by side)
+    import concurrent.futures
     confs = [dict(n=4, w=2, cap=2, faults="AnyOneFault"), dict(n=4, w=2, cap=1, faults="AnyFaults")]
     if not q:
         confs += [dict(n=5, w=2, cap=2, faults="AnyFaults"), dict(n=3, w=3, cap=1, faults="AnyFaults"), dict(n=4, w=3, cap=2, faults="AnyOneFault")]
-    for c in confs:
-        ctx.tlc("MCWorkQueue", cfg_text=WQ_CFG % c, timeout=1800)
     # items larger than the OS pipe (PipeCap 0) / a pipe of one item: the feeder thread blocks in a write that no dead worker
     # will ever receive, so the wait for the feeder must look at the workers too (JoinChecked)
     small = [dict(n=4, w=2, cap=4, faults="AnyFaults", pc=0), dict(n=3, w=2, cap=4, faults="AnyFaults", pc=1)]
     if not q:
         small += [dict(n=5, w=2, cap=4, faults="AnyFaults", pc=0), dict(n=4, w=3, cap=6, faults="AnyFaults", pc=1), dict(n=4, w=2, cap=2, faults="AnyFaults", pc=0)]
-    for c in small:
-        ctx.tlc("MCWorkQueue", cfg_text=(WQ_CFG % c).replace("PipeCap = 99", "PipeCap = %d" % c["pc"]), timeout=1800)
-    # negative control: the protocol that joins the feeder unconditionally (before the repair) never ends when every worker
-    # has died with large items still buffered - TLC must refute Ends
-    r = ctx.tlc("MCWorkQueue", cfg_text=(WQ_CFG % small[0]).replace("PipeCap = 99", "PipeCap = 0").replace("JoinChecked = TRUE", "JoinChecked = FALSE"),
-                expect_violation=True, timeout=1800, count=False)
-    if not r.violated:
-        ctx.machinery("TLC did not refute Ends for the unconditional join_thread with PipeCap = 0 (negative control)")
-    ctx.note("negative_control_unchecked_join_thread", str(r.violated))
     l1 = c01.level(1)
     fam = [c01.with_kids(l1[1:2], 2), c01.with_kids([l1[0], l1[3]], 2), frozenset(l1) | {(2, 1, 0), (2, 3, 3), (2, 0, 3)}]
     if not q:
         fam.append(c01.with_kids(l1, 2))
-    ctx.tlc("Conf", extra={"Conf.tla": c01.conf_module("Conf", "WalkPar", fam, [c01.ROOT, (1, 1, 0)], "one")},
-            cfg_text=WALK_CFG % dict(depth=2, nw=2, cap=4), timeout=3000)
+    jobs = [lambda c=c: ctx.tlc("MCWorkQueue", cfg_text=WQ_CFG % c, timeout=1800, workers=4) for c in confs]
+    jobs += [lambda c=c: ctx.tlc("MCWorkQueue", cfg_text=(WQ_CFG % c).replace("PipeCap = 99", "PipeCap = %d" % c["pc"]), timeout=1800, workers=4) for c in small]
+    # negative control: the protocol that joins the feeder unconditionally (before the repair) never ends when every worker
+    # has died with large items still buffered - TLC must refute Ends
+    neg = lambda: ctx.tlc("MCWorkQueue", cfg_text=(WQ_CFG % small[0]).replace("PipeCap = 99", "PipeCap = 0").replace("JoinChecked = TRUE", "JoinChecked = FALSE"),      # noqa: E731
+                          expect_violation=True, timeout=1800, count=False, workers=4)
+    walkjob = lambda: ctx.tlc("Conf", extra={"Conf.tla": c01.conf_module("Conf", "WalkPar", fam, [c01.ROOT, (1, 1, 0)], "one")},      # noqa: E731
+                              cfg_text=WALK_CFG % dict(depth=2, nw=2, cap=4), timeout=3000, workers=8)
+    with concurrent.futures.ThreadPoolExecutor(max_workers=4) as ex:
+        futs = [ex.submit(j) for j in jobs]
+        fneg = ex.submit(neg)
+        fwalk = ex.submit(walkjob)
+        for f in futs:
+            f.result()
+        fwalk.result()
+        r = fneg.result()
+    if not r.violated:
+        ctx.machinery("TLC did not refute Ends for the unconditional join_thread with PipeCap = 0 (negative control)")
+    ctx.note("negative_control_unchecked_join_thread", str(r.violated))
     # (2) replay of fault behaviours
     stages = [c03.LeafStage("toast depth 1", 1), c03.TransformStage(1)]
     for st in stages:
